@@ -32,6 +32,7 @@ OBLIGATIONS = [
     "Grog.C12.platform_error_iff",
     "Grog.C12.select_order_independent",
     "Grog.C12.select_total",
+    "Grog.C12.select_nodup",
 ]
 ASSUMPTIONS = [
     "the node map iteration order of Go is arbitrary: the theorems quantify over every order, the model side of the tie runs a shuffled order",
